@@ -72,5 +72,45 @@ fn main() {
             }
         }
     }
+    // ---- second phase: functions inside an interface (qualified name `<interface>#<function>`), including a pair of
+    // functions where one name is a suffix of the other
+    let key = wit_parser::WorldKey::Name("i".to_string());
+    let qfilters = [F::All, F::Fun("i#f"), F::Fun("i#gf"), F::Imp("i#f"), F::Exp("i#gf"), F::Fun("f"), F::Fun("j#f")];
+    let mut qdirs = Vec::new();
+    for on in [true, false] { for f in qfilters { qdirs.push((on, f)); } }
+    let iq: Vec<(&str, bool, bool)> = vec![("f", true, false), ("gf", true, false), ("f", false, true), ("gf", false, true)];
+    for len in 0..=2usize {
+        let total = qdirs.len().pow(len as u32);
+        for code in 0..total {
+            let mut c = code;
+            let mut list = Vec::new();
+            for _ in 0..len { list.push(qdirs[c % qdirs.len()]); c /= qdirs.len(); }
+            for qmask in 0u32..(1 << iq.len()) {
+                let mut set = AsyncFilterSet::default();
+                for (on, f) in &list { set.push(&text(*on, *f)); }
+                let mut used = vec![false; len];
+                let mut trace = format!("directives={:?}", list.iter().map(|(o, f)| text(*o, *f)).collect::<Vec<_>>());
+                for (qi, (name, import, wit_async)) in iq.iter().enumerate() {
+                    if qmask & (1 << qi) == 0 { continue; }
+                    let got = set.is_async(&resolve, Some(&key), &func(name, *wit_async), *import);
+                    let full = format!("i#{name}");
+                    let k = list.iter().position(|(_, f)| matches(*f, &full, *import));
+                    let want = match k { Some(k) => { used[k] = true; list[k].0 } None => *wit_async };
+                    trace += &format!("; is_async(interface i, {name:?}, import={import}, wit_async={wit_async})={got}");
+                    tried += 1;
+                    if got != want {
+                        println!("COUNTEREXAMPLE {trace} : expected {want} (first matching directive: {k:?})");
+                        return;
+                    }
+                }
+                let err = set.ensure_all_used().is_err();
+                let want_err = list.iter().enumerate().any(|(i, (_, f))| *f != F::All && !used[i]);
+                if err != want_err {
+                    println!("COUNTEREXAMPLE {trace}; ensure_all_used().is_err()={err} : expected {want_err}");
+                    return;
+                }
+            }
+        }
+    }
     println!("no counterexample in {tried} is_async calls (all directive lists of length <=3 over {} directives, all query subsets)", dirs.len());
 }
